@@ -222,12 +222,17 @@ macro_rules! impl_traits {
 
         impl Sampleable<$kind> for UnitPowerLaw {
             fn draw<R: Rng>(&self, rng: &mut R) -> $kind {
-                self.invcdf(rng.gen::<f64>())
+                self.invcdf(rng.sample::<f64, _>(rand_distr::Open01))
             }
 
             fn sample<R: Rng>(&self, n: usize, rng: &mut R) -> Vec<$kind> {
                 let alpha_inv = self.alpha_inv() as $kind;
-                (0..n).map(|_| rng.gen::<$kind>().powf(alpha_inv)).collect()
+                (0..n)
+                    .map(|_| {
+                        rng.sample::<$kind, _>(rand_distr::Open01)
+                            .powf(alpha_inv)
+                    })
+                    .collect()
             }
         }
 
